@@ -144,6 +144,54 @@ func c11Run(c *core.Ctx) {
 			c.SetMax("token_length_completed", int64(L))
 		}
 	}
+	// statement-keyword class alphabet at lengths 5 and 6 (the full alphabet stops at n): the shortest malformed
+	// inputs that put a declaration keyword into a brace-less body, an unfinished header or an open bracket
+	{
+		K := []string{"a", "(", ")", "{", "}", ";", "=", "if", "else", "let", "function", "while", ","}
+		maxL := 6
+		modes := []int{0, 3}
+		if c.Thorough() {
+			maxL = 7
+		}
+		for L := 5; L <= maxL; L++ {
+			gen.EachSeq(len(K), L, func(idx []int) bool {
+				if !c.Next() {
+					return true
+				}
+				if c.Tick() {
+					return false
+				}
+				src := gen.Join(K, idx, " ")
+				c.Cur(src)
+				c.Inc("inputs")
+				c.Inc("keyword_class_inputs")
+				free := false
+				for _, mi := range modes {
+					c.Inc("parses")
+					k, d, f := c11Check(src, mi, cfgs[:4])
+					free = free || f
+					if k != "" && c.ShrinkOK("kw"+k) {
+						fails := func(x []int) bool { kk, _, _ := c11Check(gen.Join(K, x, " "), mi, cfgs[:4]); return kk == k }
+						sh := core.ShrinkSeq(append([]int{}, idx...), nil, fails)
+						s2 := gen.Join(K, sh, " ")
+						if kk, dd, _ := c11Check(s2, mi, cfgs[:4]); kk == k {
+							d = dd
+						} else {
+							s2 = src
+						}
+						pl, _ := json.Marshal(c11Payload{s2, mi})
+						c.Violate(core.Violation{Kind: k, Config: Modes[mi].String(), Case: fmt.Sprintf("%q", s2), Detail: d, Payload: pl, Size: len(sh)})
+					}
+				}
+				if free {
+					c.Inc("error_free_inputs")
+				} else {
+					c.Inc("rejected_inputs")
+				}
+				return true
+			})
+		}
+	}
 	// literals at the edge of the numeric range and long lexemes: all sequences <= 3 (4 thorough) over a
 	// second alphabet (the main alphabet has one lexeme per literal kind)
 	N := []string{"9223372036854775808", "1e999", "0xffffffffffffffffff", "5e-324", "a", "+", "(", ")", "[", "]", ",", "=", "let", ".", "1", "'\\u{0000041}'", "return", "{", "}", ":"}
@@ -362,7 +410,7 @@ func c11Replay(pl json.RawMessage) (string, []core.Violation) {
 func init() {
 	core.Register(&core.PropSpec{
 		ID: "C11", Level: "exploration",
-		Rule:     "ALL token sequences of length 0..n (n=4 quick, 5 thorough) over the 45-lexeme alphabet (identifiers, literals, every keyword, operator and delimiter), valid or not, space-separated (and line-feed-separated up to n-1; at n=5 in the modes strict and tolerant+smart only), plus all byte strings <=4 over the 26-byte lexer alphabet; each parsed in the 4 mode combinations; oracle: no panic, err<=>Errors(), no nil/typed-nil entry in any statement list (reflective walk), every error range equals the range of a token of a fresh lexer run, and for error-free results all mandatory children present and every compiler configuration + debug.ToString run without panic. non-trivial = input accepted without error in at least one mode (reaches tree + compiler checks) — rejected inputs are counted separately Added: all sequences <= 3 (4 thorough) over a second 20-lexeme alphabet with range-edge numeric literals and a long escape; the scale family intact and truncated at 3 points; programs being typed: every token prefix and every single-token deletion of every program of the statement families and nesting chains, and every prefix of those programs with all / each single semicolon dropped (the inputs tolerant mode exists for), in two layouts and all modes.",
+		Rule:     "ALL token sequences of length 0..n (n=4 quick, 5 thorough) over the 45-lexeme alphabet (identifiers, literals, every keyword, operator and delimiter), valid or not, space-separated (and line-feed-separated up to n-1; at n=5 in the modes strict and tolerant+smart only), plus all byte strings <=4 over the 26-byte lexer alphabet; each parsed in the 4 mode combinations; oracle: no panic, err<=>Errors(), no nil/typed-nil entry in any statement list (reflective walk), every error range equals the range of a token of a fresh lexer run, and for error-free results all mandatory children present and every compiler configuration + debug.ToString run without panic. non-trivial = input accepted without error in at least one mode (reaches tree + compiler checks) — rejected inputs are counted separately Added: all sequences <= 3 (4 thorough) over a second 20-lexeme alphabet with range-edge numeric literals and a long escape; the scale family intact and truncated at 3 points; programs being typed: every token prefix and every single-token deletion of every program of the statement families and nesting chains, and every prefix of those programs with all / each single semicolon dropped (the inputs tolerant mode exists for), in two layouts and all modes; all sequences of length 5..6 (7 thorough) over a 13-lexeme statement-keyword class alphabet in the modes strict and tolerant+smart.",
 		Assume:   []string{"stack exhaustion on very deep nesting is out of scope (bounded length)"},
 		QuickSec: 300, ThorSec: 2400, Run: c11Run, Replay: c11Replay,
 		Evals: "inputs", Nontriv: "error_free_inputs",
